@@ -11,7 +11,9 @@ import (
 //	                          with no other Lock/Unlock of stateMu in its body (one call = one critical section)
 //	c12FinishHoldsLock        finishSnapshot never touches stateMu itself: the lock of the calling Add…Snapshot is
 //	                          held across sourceSplitter.Checkpoint() until the caller clears pendingSnapshot
-//	c12LoadCounterFromLoaded  LoadCheckpoint sets the id counter exactly once, from the loaded checkpoint's id
+//	c12LoadCounterMaxLocal    LoadCheckpoint sets the id counter exactly once, to
+//	                          max(loadedCheckpoint.Id, newestLocalID), where newestLocalID is only raised to ids decoded
+//	                          from listed file names (checkpointIDFromFilePath)
 func init() { extraFactFns = append(extraFactFns, c12Facts) }
 
 func isMuCall(e ast.Expr, method string) bool {
@@ -77,24 +79,35 @@ func c12Facts(fc *facts) {
 		problem("snapshots.Store.LoadCheckpoint not found")
 		return
 	}
-	nAssign, fromLoaded := 0, false
+	nAssign, maxShape := 0, false
+	localOK, localAssigns := true, 0
 	ast.Inspect(load.Body, func(x ast.Node) bool {
 		switch n := x.(type) {
 		case *ast.AssignStmt:
 			for i, l := range n.Lhs {
-				if selName(l) == "s.state.checkpointID" {
+				switch selName(l) {
+				case "s.state.checkpointID":
 					nAssign++
-					if n.Tok == token.ASSIGN && len(n.Rhs) == len(n.Lhs) && selName(n.Rhs[i]) == "loadedCheckpoint.Id" {
-						fromLoaded = true
+					if n.Tok == token.ASSIGN && len(n.Rhs) == len(n.Lhs) {
+						if c, ok := n.Rhs[i].(*ast.CallExpr); ok && selName(c.Fun) == "max" && len(c.Args) == 2 {
+							a, b := selName(c.Args[0]), selName(c.Args[1])
+							maxShape = (a == "loadedCheckpoint.Id" && b == "newestLocalID") || (b == "loadedCheckpoint.Id" && a == "newestLocalID")
+						}
+					}
+				case "newestLocalID":
+					// only `newestLocalID = id` (guarded by `id > newestLocalID` in the listing loop)
+					localAssigns++
+					if !(n.Tok == token.ASSIGN && len(n.Rhs) == len(n.Lhs) && selName(n.Rhs[i]) == "id") {
+						localOK = false
 					}
 				}
 			}
 		case *ast.IncDecStmt:
-			if selName(n.X) == "s.state.checkpointID" {
-				nAssign++
+			if selName(n.X) == "s.state.checkpointID" || selName(n.X) == "newestLocalID" {
+				nAssign += 10
 			}
 		}
 		return true
 	})
-	fc.set("c12LoadCounterFromLoaded", b2u(nAssign == 1 && fromLoaded), true, "")
+	fc.set("c12LoadCounterMaxLocal", b2u(nAssign == 1 && maxShape && localOK && localAssigns == 1), true, "")
 }
